@@ -107,6 +107,7 @@ func checkC02(c *Ctx) {
 	c.Assume("only the root-span end and the re-basing of carried-over blocks are decided; validity, nesting, sibling order and character alignment of all other spans are arithmetic over loop-computed offsets and are not decided")
 	ruleRootCut(c)
 	ruleRebase(c)
+	ruleCharAdvance(c)
 }
 
 // ROOT-CUT: the Source of a root block ends exactly where the span of the block it carries ends.
